@@ -44,6 +44,11 @@ class Refusals:
                 node = nxt
             if dec is None:
                 dec = (None, None); idx = len(p.facts)
+            # `match x { 0 => .., _ => .. }` spellings of a zero test are presented to the tables as the comparison x == 0
+            if dec[0] is not None and dec[0][0] == 'nval' and tuple(dec[0][2]) == (0,) and isinstance(dec[0][1], tuple):
+                dec = (('val', EQ(I(0), dec[0][1]), False), dec[1])
+            elif dec[0] is not None and dec[0][0] == 'val' and dec[0][2] == 0 and not isinstance(dec[0][2], bool) and isinstance(dec[0][1], tuple):
+                dec = (('val', EQ(I(0), dec[0][1]), True), dec[1])
             key = fact_key(dec[0])
             e = self.entries.setdefault((p.variant, 'err', key), {'variant': p.variant, 'kind': 'err', 'key': key, 'fact': dec[0], 'site': dec[1], 'count': 0,
                                                                   'example': p, 'idx': idx, 'writes': False})
